@@ -397,6 +397,8 @@ def observe(case):
     held = [root]
     events = []
     for op in case["ops"]:
+        if op["root"] >= len(held):
+            break  # an earlier call raised (already recorded); the calls that depend on its result cannot be made
         recv = held[op["root"]]
         if "value_from" in op:
             val = recv
